@@ -846,6 +846,13 @@ pub fn c05(p: &Params) -> Outcome {
                     c05_check(ctx, &big[k..], 1);
                 }
             }
+            if i % 4000 == 9 {
+                // thousands of rejected candidates within one scanner call
+                let (fl, kind) = gen::flood_stream(&mut rng);
+                ctx.count("buffers_with_a_flood_of_dead_candidates");
+                ctx.count(kind);
+                c05_check(ctx, &fl, 1);
+            }
             // also every suffix start inside the first bytes (alignment of garbage)
             if i % 16 == 0 && s.len() > 4 {
                 let k = rng.usize_below(s.len().min(64));
@@ -855,14 +862,14 @@ pub fn c05(p: &Params) -> Outcome {
             }
         }
     });
-    for k in ["buffers_longer_than_64KiB", "buffers_frame_at_0", "buffers_frame_after_skipped_bytes", "buffers_stopped_at_incomplete_candidate", "buffers_all_consumed_no_frame", "nested_in_invalid_outer", "buffers_with_2plus_frames"] {
+    for k in ["buffers_with_a_flood_of_dead_candidates", "buffers_longer_than_64KiB", "buffers_frame_at_0", "buffers_frame_after_skipped_bytes", "buffers_stopped_at_incomplete_candidate", "buffers_all_consumed_no_frame", "nested_in_invalid_outer", "buffers_with_2plus_frames"] {
         if total.get(k) == 0 {
             total.inconclusive(format!("no buffer of class {} observed", k));
         }
     }
     Outcome {
         ctx: total,
-        rule: "generated streams (valid frames, garbage, lone 0xD3, damaged CRC, truncated, long headers, nested frames) up to 64 KiB; oracle = reference scanner + direct invariants + iterator equivalence; non-trivial = scanner had to skip bytes / stop at an incomplete candidate, or stream contains nested/stray/damaged segments; distinct by buffer hash".into(),
+        rule: "generated streams (valid frames, garbage, lone 0xD3, damaged CRC, truncated, long headers, nested frames) up to 64 KiB, long streams to 270 KB and floods of 127..70000 dead candidates in one buffer; oracle = reference scanner + direct invariants + iterator equivalence; non-trivial = scanner had to skip bytes / stop at an incomplete candidate, or stream contains nested/stray/damaged segments; distinct by buffer hash".into(),
         exhaustive: false,
         extra: json!({}),
     }
@@ -1105,6 +1112,14 @@ pub fn c06(p: &Params) -> Outcome {
                 let big = gen::long_stream(&mut rng, 200_000);
                 ctx.count("streams_longer_than_64KiB");
                 c06_stream(ctx, &mut rng, &big, 3, false);
+            }
+            if i % 900 == 13 {
+                // thousands of rejected candidates in front of the frames: one piece sees them all in one call,
+                // small pieces never do
+                let (fl, kind) = gen::flood_stream(&mut rng);
+                ctx.count("streams_with_a_flood_of_dead_candidates");
+                ctx.count(kind);
+                c06_stream(ctx, &mut rng, &fl, 3, false);
             }
         }
     });
@@ -1422,6 +1437,218 @@ pub fn c13(p: &Params) -> Outcome {
     }
 }
 
+
+// ------------------------------------------------------------------------------------
+// Stack discipline (C02, C05): the monitors above run on 256 MB worker stacks, which would hide a scanner or
+// decoder whose stack use grows with its input.  This stage runs in a child process of ./check, on a thread with
+// the platform's default stack (2 MiB for spawned Rust threads -- what a user's thread has).  A stack overflow
+// kills the child (SIGABRT / SIGSEGV, "has overflowed its stack"); ./check turns exactly that into a violation.
+// The child prints "CASE <name>" before each case so that the driver knows which input was being processed.
+// ------------------------------------------------------------------------------------
+
+pub const STACK_CASES: [&str; 12] = [
+    "preamble_bytes_64k",
+    "preamble_bytes_300k",
+    "tiny_damaged_frames_20k",
+    "tiny_damaged_frames_300k",
+    "empty_frames_wrong_checksum_500k",
+    "noise_4MiB",
+    "noise_24MiB",
+    "damaged_copies_100k",
+    "valid_frames_8MiB",
+    "flood_streams",
+    "decode_every_type",
+    "decode_hostile_frames",
+];
+
+fn stack_case_buffer(name: &str, rng: &mut Rng) -> Vec<u8> {
+    let tail = |s: &mut Vec<u8>, rng: &mut Rng| {
+        for _ in 0..3 {
+            let l = rng.usize_below(60);
+            let p = rng.bytes(l);
+            s.extend(crc::frame(&p));
+        }
+    };
+    let mut s: Vec<u8> = Vec::new();
+    match name {
+        "preamble_bytes_64k" => s.extend(std::iter::repeat(0xD3u8).take(65_536)),
+        "preamble_bytes_300k" => s.extend(std::iter::repeat(0xD3u8).take(300_000)),
+        "tiny_damaged_frames_20k" | "tiny_damaged_frames_300k" => {
+            let n = if name.ends_with("20k") { 20_000 } else { 300_000 };
+            for i in 0..n {
+                let p = [i as u8];
+                let mut f = crc::frame(&p[..(i % 2)]);
+                let k = f.len() - 1;
+                f[k] ^= 0x10;
+                s.extend(f);
+            }
+        }
+        "empty_frames_wrong_checksum_500k" => {
+            for i in 0..500_000u32 {
+                s.extend_from_slice(&[0xD3, 0, 0, 0xFF, i as u8, 1]);
+            }
+        }
+        "noise_4MiB" => s = rng.bytes(4 << 20),
+        "noise_24MiB" => s = rng.bytes(24 << 20),
+        "damaged_copies_100k" => {
+            let p = rng.bytes(19);
+            let f = crc::frame(&p);
+            for i in 0..100_000usize {
+                let mut g = f.clone();
+                let b = 24 + (i * 7) % (g.len() * 8 - 24);
+                g[b / 8] ^= 0x80 >> (b % 8);
+                s.extend(g);
+            }
+        }
+        "valid_frames_8MiB" => {
+            while s.len() < (8 << 20) {
+                let l = rng.usize_below(200);
+                let p = rng.bytes(l);
+                s.extend(crc::frame(&p));
+            }
+        }
+        _ => {}
+    }
+    tail(&mut s, rng);
+    s
+}
+
+/// library scan of a whole buffer: (frames delivered, total consumed) via the iterator, and the same through
+/// repeated next_msg_frame calls
+fn lib_scan_counts(buf: &[u8]) -> ((usize, usize), (usize, usize)) {
+    let mut it = MsgFrameIter::new(buf);
+    let mut n = 0usize;
+    while let Some(_f) = (&mut it).next() {
+        n += 1;
+        if n > buf.len() {
+            break;
+        }
+    }
+    let a = (n, it.consumed());
+    let mut idx = 0usize;
+    let mut m = 0usize;
+    while idx < buf.len() {
+        let (c, f) = next_msg_frame(&buf[idx..]);
+        idx += c;
+        if f.is_none() {
+            break;
+        }
+        m += 1;
+    }
+    (a, (m, idx))
+}
+
+pub fn stack_probe(p: &Params, only: Option<&str>) -> Outcome {
+    use std::io::Write;
+    let seed = p.seed;
+    let prop = p.prop.clone();
+    let only = only.map(|s| s.to_string());
+    // NOTE: no stack_size() here on purpose: the platform default for spawned threads
+    let h = std::thread::Builder::new().name("default-stack".into()).spawn(move || {
+        let mut ctx = Ctx::new(0);
+        for name in STACK_CASES.iter() {
+            if let Some(o) = &only {
+                if o != name {
+                    continue;
+                }
+            }
+            eprintln!("CASE {}", name);
+            let _ = std::io::stderr().flush();
+            let mut rng = Rng::derive(seed, "stack", crate::rng::hash_bytes(name.as_bytes()));
+            let rp = json!({"kind":"stack_probe","case":name,"seed":seed});
+            match *name {
+                "decode_every_type" | "decode_hostile_frames" => {
+                    for &n in gen::supported_numbers() {
+                        let mut frames: Vec<Vec<u8>> = Vec::new();
+                        if *name == "decode_every_type" {
+                            for _ in 0..3 {
+                                if let Some(f) = gen::lib_frame(n, &mut rng) {
+                                    frames.push(f);
+                                }
+                            }
+                            let mut ones = vec![0xFFu8; 1023];
+                            bits::write(&mut ones, 0, 12, n as u128);
+                            frames.push(crc::frame(&ones));
+                            let mut z = vec![0u8; 1023];
+                            bits::write(&mut z, 0, 12, n as u128);
+                            frames.push(crc::frame(&z));
+                        } else {
+                            for _ in 0..40 {
+                                frames.push(gen::wire_frame(&mut rng, n).0);
+                            }
+                        }
+                        for f in frames {
+                            ctx.eval();
+                            ctx.nontrivial(hash_bytes(&f));
+                            let r = guard(|| {
+                                let mut it = MsgFrameIter::new(&f);
+                                let mut k = 0usize;
+                                while let Some(fr) = (&mut it).next() {
+                                    let m = fr.get_message();
+                                    std::hint::black_box(&m);
+                                    k += 1;
+                                }
+                                k
+                            });
+                            match r {
+                                Ok(_) => ctx.count("frames_decoded_on_a_default_stack"),
+                                Err(_) => ctx.count("decode_panics_left_to_the_main_monitor"),
+                            }
+                        }
+                    }
+                }
+                "flood_streams" => {
+                    for _ in 0..200 {
+                        let (buf, kind) = gen::flood_stream(&mut rng);
+                        stack_scan_case(&mut ctx, &prop, &buf, kind, &rp);
+                    }
+                }
+                _ => {
+                    let buf = stack_case_buffer(name, &mut rng);
+                    stack_scan_case(&mut ctx, &prop, &buf, name, &rp);
+                }
+            }
+            ctx.count("stack_cases_completed");
+        }
+        ctx
+    });
+    let ctx = match h.map(|h| h.join()) {
+        Ok(Ok(c)) => c,
+        _ => {
+            let mut c = Ctx::new(0);
+            c.inconclusive("the default-stack thread could not be started or joined".into());
+            c
+        }
+    };
+    Outcome {
+        ctx,
+        rule: "stack discipline: floods of dead candidates (64 KiB..24 MiB), long valid streams and frames of every type are scanned and decoded on a thread with the platform's default stack in a child process; oracle: the process survives (a stack overflow kills it) and frame count / consumed total equal the reference scanner's".into(),
+        exhaustive: false,
+        extra: json!({}),
+    }
+}
+
+fn stack_scan_case(ctx: &mut Ctx, prop: &str, buf: &[u8], kind: &'static str, rp: &Value) {
+    ctx.eval();
+    ctx.nontrivial(hash_bytes(buf));
+    ctx.count(kind);
+    ctx.max("largest_buffer_scanned_on_a_default_stack_bytes", buf.len() as f64);
+    let (rf, rtot) = scan_all(buf);
+    match guard(|| lib_scan_counts(buf)) {
+        Err(p) => ctx.panic_violation(&format!("{}.no_panic", prop), &p, "scanning on a default-size stack", rp.clone()),
+        Ok((a, b)) => {
+            if a != (rf.len(), rtot) || b != (rf.len(), rtot) {
+                ctx.violation(
+                    format!("{}.scan_of_large_buffer|{}", prop, kind),
+                    &format!("{}.scan_of_large_buffer", prop),
+                    format!("buffer of {} bytes ({}): iterator delivered {} frames / consumed {}, repeated next_msg_frame {} / {}, reference scanner {} / {}", buf.len(), kind, a.0, a.1, b.0, b.1, rf.len(), rtot),
+                    rp.clone(),
+                );
+            }
+        }
+    }
+}
+
 // ------------------------------------------------------------------------------------
 // replay
 // ------------------------------------------------------------------------------------
@@ -1430,6 +1657,11 @@ pub fn replay(p: &Params, v: &Value) -> Outcome {
     let mut ctx = Ctx::new(0);
     let kind = v["kind"].as_str().unwrap_or("");
     let bytes = unhex(v["hex"].as_str().unwrap_or(""));
+    if kind == "stack_probe" {
+        let mut q = Params { prop: p.prop.clone(), thorough: p.thorough, seed: v["seed"].as_u64().unwrap_or(p.seed), profile: p.profile.clone(), workers: p.workers };
+        q.seed = v["seed"].as_u64().unwrap_or(p.seed);
+        return stack_probe(&q, v["case"].as_str());
+    }
     match (p.prop.as_str(), kind) {
         ("C03", "slice") => c03_check(&mut ctx, &bytes, "replay"),
         ("C04", "damaged") => c04_observe(&mut ctx, &bytes, "replay", || json!("replayed damaged frame")),
